@@ -649,7 +649,23 @@ func checkRecovered(n *node, m *model, dur durable, class func(string)) (*model,
 				return err
 			}
 		}
-		return rm.observeAll(r, out)
+		for _, o := range out {
+			if o.Kind != "series" {
+				err = rm.observe(o)
+			} else {
+				kept := false
+				if byTags := m.series[o.Idx][r.mkey()]; byTags != nil {
+					if old := byTags[r.canonTags()]; old != nil && old.has && old.id == o.ID {
+						kept = true
+					}
+				}
+				err = rm.observeSeriesOpt(o.Idx, r, o.ID, !kept)
+			}
+			if err != nil {
+				return err
+			}
+		}
+		return nil
 	}
 	// all old names again
 	for _, k := range sortedMetricKeys(m.metrics) {
